@@ -304,6 +304,15 @@ def p4(fb, chk, hr, tag):
         acks = [bb for bb, t, c in sites(hr, name="send_ack_message") if bb in after]
         early = [a for a in acks if w["bb"] not in ups and not m.cfg.all_paths_pass_through(w["bb"], {a}, set(ups))]
         codes = sorted(common.arm_codes(m, w["bb"]))
+        # the record is taken for every request of that kind that is acknowledged: no path of the arm reaches its ack
+        # around the store (the frontend records what it sent before it waits, whatever the handler answers)
+        dom_ = m.cfg.dominators()
+        arm_acks = [a for a in acks if set(common.arm_codes(m, a)) == set(codes)]
+        skipped = [a for a in arm_acks if w["bb"] not in dom_.get(a, ())]
+        chk.check(not skipped, "P4", "%sflag:store-unconditional:%s:%s" % (tag, w["field"], "/".join(codes)),
+                  "the arm's acknowledgement is dominated by the store of %s" % w["field"],
+                  "arm %s can acknowledge the request without having recorded %s (e.g. only when the handler succeeded): the "
+                  "two ends then disagree on whether acknowledgements are in use" % (codes, w["field"]), hr.loc(w["line"]))
         chk.check(ok and not early, "P4", "%sflag:recompute:%s:%s" % (tag, w["field"], "/".join(codes)),
                   "store of %s is followed by the recomputation on every path, before any acknowledgement" % w["field"],
                   "after storing %s (arm %s) the reply-ack flag is not recomputed on every path before the acknowledgement is decided"
